@@ -209,6 +209,58 @@ fn dead_effect_family() -> Vec<Prog> {
   out
 }
 
+/// Counting loops with two (or three) induction variables that start at different values and step
+/// differently; the body uses values derived from the counter that is NOT in the guard (`j * m + c`),
+/// alone and mixed with values derived from the guard counter.
+fn multi_counter_loop_family() -> Vec<Prog> {
+  let guards: [(&str, &str); 3] = [("i<B", "i < 12"), ("i!=B", "i != 12"), ("B>i", "12 > i")];
+  // (stride of i, stride of j): every i stride divides 12 - i0 for the starts below
+  let strides: [(i32, i32); 3] = [(1, 3), (2, -1), (4, 4)];
+  let starts: [(i32, i32); 3] = [(0, 0), (0, 100), (4, -7)];
+  let uses: [(&str, &str, &str); 6] = [
+    ("acc+j*5+2", "", "acc + (j * 5 + 2)"),
+    ("println(j*5+2)", "Process.println(Str.fromInt(j * 5 + 2));", "acc + 1"),
+    ("println(i*7+1);println(j*5+2)", "Process.println(Str.fromInt(i * 7 + 1)); Process.println(Str.fromInt(j * 5 + 2));", "acc"),
+    ("acc+i*7+j*5", "", "acc + i * 7 + j * 5"),
+    ("acc+(i+j)*3", "", "acc + (i + j) * 3"),
+    ("acc:=j*3", "", "j * 3"),
+  ];
+  let results: [(&str, &str); 3] = [("acc", "acc"), ("acc+j", "acc + j"), ("j*2+1", "j * 2 + 1")];
+  let mut out = vec![];
+  for (gname, guard) in guards {
+    for (s1, s2) in strides {
+      for (i0, j0) in starts {
+        for (uname, effect, acc2) in uses {
+          for (rname, result) in results {
+            for third in [false, true] {
+              // the third counter only for the first result form
+              if third && rname != "acc" {
+                continue;
+              }
+              let (params, args, call0, kuse) = if third {
+                ("i: int, j: int, k: int, acc: int", format!("i + {s1}, j + ({s2}), k + 2, {acc2} + k * 9"), format!("{i0}, {j0}, 50, 0"), " third=k*9")
+              } else {
+                ("i: int, j: int, acc: int", format!("i + {s1}, j + ({s2}), {acc2}"), format!("{i0}, {j0}, 0"), "")
+              };
+              let text = format!(
+                "class Main {{\n  function loop({params}): int = if {guard} {{\n    {effect}\n    Main.loop({args})\n  }} else {{ {result} }}\n  function main(): unit = {{\n    Process.println(Str.fromInt(Main.loop({call0})));\n    Process.println(Str.fromInt(Main.loop({})))\n  }}\n}}\n",
+                call0.replacen(&i0.to_string(), &(i0 + s1).to_string(), 1)
+              );
+              out.push(Prog {
+                family: "multi-counter-loop",
+                shape: format!("guard={gname} use={uname} result={rname}{kuse}"),
+                name: format!("loop2 {gname} strides=({s1},{s2}) starts=({i0},{j0}) use={uname} res={rname}{kuse}"),
+                text,
+              });
+            }
+          }
+        }
+      }
+    }
+  }
+  out
+}
+
 fn loop_family(thorough: bool) -> Vec<Prog> {
   let guards: Vec<(&str, &str)> = vec![
     ("i<B", "I < B"), ("i<=B", "I <= B"), ("i>B", "I > B"), ("i>=B", "I >= B"), ("i!=B", "I != B"),
@@ -480,6 +532,7 @@ fn main() {
   progs.extend(operand_order_family());
   progs.extend(inline_permutation_family());
   progs.extend(dead_effect_family());
+  progs.extend(multi_counter_loop_family());
   // (class-bound programs do not survive lowering on the pinned tree: known finding C03-K2)
   let fams: Vec<Prog> = progfam::all_families(thorough).into_iter().filter(|p| p.family != "class-bound").collect();
   if thorough {
